@@ -26,6 +26,64 @@ class Stuck(RuntimeError):
     pass
 
 
+CURRENT = [None]        # the scheduler of the execution in progress: callable "this thread cannot go on until another one ran"
+
+
+class CoopLock(object):
+    """threading.Lock for the code under test (installed in yabgp's module namespaces by vf/boot.py).  Outside an E5 execution it is
+    a plain lock.  Inside one, a thread that finds it taken hands the baton to the other thread instead of blocking the process:
+    waiting becomes visible to the scheduler, and 'nobody can run' is reported as a deadlock."""
+
+    def __init__(self):
+        self._real = _REAL_LOCK()
+
+    def acquire(self, blocking=True, timeout=-1):
+        n = 0
+        while True:
+            if self._real.acquire(False):
+                return True
+            if not blocking:
+                return False
+            sched = CURRENT[0]
+            if sched is None:
+                return self._real.acquire(True, timeout)
+            n += 1
+            if n > 10000:
+                raise Stuck('livelock: a lock is never released under this schedule')
+            sched()
+
+    def release(self):
+        self._real.release()
+
+    def locked(self):
+        return self._real.locked()
+
+    __enter__ = acquire
+
+    def __exit__(self, *a):
+        self.release()
+
+
+_REAL_LOCK = threading.Lock
+
+
+class ThreadingProxy(object):
+    """stands for the `threading` module inside yabgp's modules: Lock / RLock are cooperative, everything else is the real thing"""
+    Lock = CoopLock
+    RLock = CoopLock        # (not re-entrant: a re-entrant acquisition in the code under test shows up as a livelock report)
+
+    def __getattr__(self, name):
+        return getattr(threading, name)
+
+
+def install_cooperative_locks():
+    import sys as _sys
+    proxy = ThreadingProxy()
+    for name, mod in list(_sys.modules.items()):
+        if name.startswith('yabgp') and mod is not None and getattr(mod, 'threading', None) is threading:
+            mod.threading = proxy
+
+
 def _result(fn):
     try:
         return ('ok', fn())
@@ -46,6 +104,17 @@ def run_schedule(bodies, start, cuts, root):
             if j != i and not st['done'][j]:
                 return j
         return None
+
+    idents = {}
+
+    def blocked():
+        """the calling thread waits for a lock: let the other one run (not a preemption: it could not have gone on)"""
+        i = idents[threading.get_ident()]
+        j = other(i)
+        if j is None:
+            raise Stuck('deadlock: thread %d waits for a lock that no running thread holds' % i)
+        sems[j].release()
+        sems[i].acquire()
 
     def make(i):
         def local(frame, event, arg):
@@ -68,6 +137,7 @@ def run_schedule(bodies, start, cuts, root):
         return glob
 
     def body(i):
+        idents[threading.get_ident()] = i
         sems[i].acquire()
         sys.settrace(make(i))
         try:
@@ -83,13 +153,17 @@ def run_schedule(bodies, start, cuts, root):
                 sems[j].release()
 
     ths = [threading.Thread(target=body, args=(i,), daemon=True) for i in range(n)]
-    for t in ths:
-        t.start()
-    sems[start].release()
-    for t in ths:
-        t.join(JOIN_TIMEOUT)
-        if t.is_alive():
-            raise Stuck('a thread did not finish under schedule start=%d cuts=%r (deadlock, or an endless loop)' % (start, cuts))
+    CURRENT[0] = blocked
+    try:
+        for t in ths:
+            t.start()
+        sems[start].release()
+        for t in ths:
+            t.join(JOIN_TIMEOUT)
+            if t.is_alive():
+                raise Stuck('a thread did not finish under schedule start=%d cuts=%r (deadlock, or an endless loop)' % (start, cuts))
+    finally:
+        CURRENT[0] = None
     fin = getattr(bodies, 'finish', None)
     if fin is not None:
         results.append(('after-both', fin()))       # e.g. what is on the wire once both bodies are done
@@ -119,17 +193,36 @@ def schedules(lines, bound):
     return out
 
 
-def explore(make_bodies, bound, root, same=lambda a, b: a == b, max_cuts=None, either_order=False):
+def _forked(fn, *args):
+    """fn(*args) in a forked child (pickled result): a *cold* execution - nothing the bodies fill lazily on first use exists yet"""
+    from . import report
+    return report.fresh(fn, *args)
+
+
+def _cold_run(make_bodies, start, cuts, root):
+    return run_schedule(make_bodies(), start, cuts, root)
+
+
+def explore(make_bodies, bound, root, same=lambda a, b: a == b, max_cuts=None, either_order=False, cold=False):
     """-> dict(executions, lines, violations=[(kind, detail)], outcomes=set()).  make_bodies() must build fresh, equal bodies.
     max_cuts: a body longer than that many traced lines has its cut points thinned to every stride-th line (stride reported in
     the result: the exploration is then exhaustive over the thinned cut points only).
     either_order: the bodies need not commute; every interleaved execution must then give, as a whole, what one of the two
-    sequential orders gives (linearizability of two operations)."""
-    for _ in range(2):                       # warm caches / lazy imports so that line counts are stable
-        sequential(make_bodies, root)
-    r01, r10, lines = sequential(make_bodies, root)
+    sequential orders gives (linearizability of two operations).
+    cold: every execution (the sequential ones too) runs in its own forked child of a process that has never run the bodies:
+    tables filled lazily on first use, memo entries, compiled patterns do not exist yet - the window in which a first-use race
+    lives closes for the life of a process after any call, so a warmed-up explorer cannot see it."""
+    if cold:
+        run = lambda b, start, cuts, rt: _forked(_cold_run, make_bodies, start, cuts, rt)      # noqa
+        r01, lines, _ = run(None, 0, [], root)
+        r10, _, _ = run(None, 1, [], root)
+    else:
+        run = run_schedule
+        for _ in range(2):                       # warm caches / lazy imports so that line counts are stable
+            sequential(make_bodies, root)
+        r01, r10, lines = sequential(make_bodies, root)
     stride = [max(1, -(-ln // max_cuts)) if max_cuts else 1 for ln in lines]
-    res = {'executions': 3, 'lines': lines, 'violations': [], 'outcomes': set(), 'bound': bound, 'stride': stride}
+    res = {'executions': 3, 'lines': lines, 'violations': [], 'outcomes': set(), 'bound': bound, 'stride': stride, 'cold': cold}
     if not either_order and not all(same(x, y) for x, y in zip(r01, r10)):
         res['violations'].append(('sequential order matters', {'first_then_second': repr(r01)[:400], 'second_then_first': repr(r10)[:400]}))
         return res
@@ -138,12 +231,12 @@ def explore(make_bodies, bound, root, same=lambda a, b: a == b, max_cuts=None, e
     for start, cuts in schedules(lines, bound):
         if any(n_ % stride[t_] for t_, n_ in cuts):
             continue
-        r, ln, taken = run_schedule(make_bodies(), start, cuts, root)
+        r, ln, taken = run(None if cold else make_bodies(), start, cuts, root)
         res['executions'] += 1
         res['outcomes'].add(repr(r))
         if all(same(x, y) for x, y in zip(r, r01)) or (either_order and all(same(x, y) for x, y in zip(r, r10))):
             continue
-        r2, _, _ = run_schedule(make_bodies(), start, cuts, root)
+        r2, _, _ = run(None if cold else make_bodies(), start, cuts, root)
         res['executions'] += 1
         if repr(r2) != repr(r):
             # shared state that survives an execution makes the second run start elsewhere: that is itself the defect class
